@@ -46,6 +46,9 @@ def plan(tier, seed):
     trees = [i for i, g in enumerate(atlas(7)) if nx.is_tree(g) and len(g) >= 3]
     for i in (trees if not q else trees[::2]):
         tasks.append({'space': 'refined-trees', 'kind': 'refined', 'index': i, 'seeds': (0,) if q else (0, 1), 'bonds': (1, 2.5)})
+    # the refined layout on resolved acyclic molecules (hydrogens, double bonds, cis/trans annotations: the dihedral restraints)
+    for i in (0, 2, 3, 4, 5, 7, 8, 9):
+        tasks.append({'space': 'refined-molecules', 'kind': 'refined-mol', 'index': i, 'seeds': (0,) if q else (0, 1), 'bonds': (1, 2.5)})
     # histories on ONE graph object: two layouts in a row with different bond lengths (plain and refined),
     # and a refined layout whose energy target cannot be reached (every retry fails)
     for i in (trees[::3] if q else trees):
@@ -168,12 +171,12 @@ def run_task(task, R):
         for rl in rls:
             for b in task['bonds']:
                 for sd in task['seeds']:
-                  for align in ((None, [1, 0], [3, 2]) if (sd == task['seeds'][0] and task['kind'] != 'refined') else (None,)):
+                  for align in ((None, [1, 0], [3, 2]) if (sd == task['seeds'][0] and not task['kind'].startswith('refined')) else (None,)):
                     ex.states += 1
                     ex.transitions += 1
                     inp = {'graph': name, 'edges': [list(e) for e in g.edges] if name.startswith(('atlas', 'tree')) else None,
-                           'refined': task['kind'] == 'refined', 'align': align,
-                           'mol': MOLS[task['index']] if task['kind'] == 'mol' else None, 'relabel': rl, 'bond': b, 'npseed': sd}
+                           'refined': task['kind'].startswith('refined'), 'align': align,
+                           'mol': MOLS[task['index']] if task['kind'] in ('mol', 'refined-mol') else None, 'relabel': rl, 'bond': b, 'npseed': sd}
                     R.record(inp, evaluate(inp, g))
     R.add_explorer(ex)
 
@@ -197,7 +200,8 @@ def evaluate(inp, g=None):
     tol = 1e-9
     try:
         if inp.get('refined'):
-            nx.set_edge_attributes(h, 1, 'order')
+            if not inp.get('mol'):
+                nx.set_edge_attributes(h, 1, 'order')
             pos = vespr_refined_layout(h, default_bond=b)
             tol = 5e-3      # restraint minimisation, not an exact rescaling (observed < 5e-5 on trees)
         else:
